@@ -41,11 +41,13 @@ CLAIMED = {
             "sampling; early-stop judged by continuing the run to max_iter; SDMM explored with eps=0"),
     "C18": ("rng", "§3 C18",
             "seeded histories of process-global numpy RNG use around mri.samp.poisson in JIT and interpreter mode, "
-            "including the error path; exact state comparison, first-call reproducibility table, mask invariants",
+            "including the error path, arguments as tuples / lists / numpy scalars and by position; exact state comparison, "
+            "first-call reproducibility table, mask invariants, masks handed out earlier re-verified after every step",
             "sampling; numba's private generator is outside numpy's state by construction (JIT mode)"),
     "C02": ("ops", "§3 C02",
             "seeded sessions over a shared pool of buffers, operators (all CPU Linops, MRI factories, expression "
-            "trees, cached .H/.N), prox objects and array functions; buffer ledger after every call, re-application "
+            "trees, cached .H/.N), prox objects and array functions, with the allocator's recycled memory made non-zero "
+            "before every call; buffer ledger after every call, re-application "
             "determinism, C-linearity probes with complex scalars",
             "sampling; raises on shape-valid inputs are recorded, not judged"),
 }
